@@ -130,8 +130,8 @@ ROLLBACK_EXCEPTIONS = {
 }
 
 
-def r3_insert_rollback(ctx):
-    r = ctx.rule('C19.R3', 'POST', 'user-facing functions that insert into the Store remove the record on every error exit')
+def r3_insert_rollback(ctx, rid='C19.R3'):
+    r = ctx.rule(rid, 'POST', 'user-facing functions that insert into the Store remove the record on every error exit')
     F = ctx.facts
     n = 0
     for name, f in sorted(F.fns.items()):
